@@ -60,6 +60,13 @@ CLAIMS = {
             "maximal close, consult the report strategy, and replace the active windows only afterwards; the close strategy "
             "reports only when close <= t. Which windows `scope` opens (f64 arithmetic on width/slide) is not decided.",
             "MIR controlling conditions (T-GUARD), sibling comparison of normalised comparisons"),
+    "C12": ("DESIGN.md §4 C12",
+            "Decides the agreements that make incremental and from-scratch materialisation coincide at expiry instants: the "
+            "translator and the incremental path use the same strict alive boundary (expiry > now) on event_time + width, "
+            "renewal re-seeds exactly when the new expiry is later, carried expiries combine with max, both materialisers "
+            "translate the same (sds, dict, now), and the expiry semiring is exactly (max, min, 0, +inf). Equality of the two "
+            "fixpoints over all histories is not decided.",
+            "MIR comparison normal forms (T-GUARD), sibling agreement, exact-body checks of semiring operations"),
 }
 
 NA = {
